@@ -38,7 +38,8 @@ pub fn get_line_number(char_number: usize, file_contents: &str) -> i32 {
         }
     }
 
-    return 0;
+    //no newline follows the character range, it is on the last line of the file
+    return i;
 }
 
 pub fn storage_slots_used(variables: Vec<u16>) -> u32 {
